@@ -43,6 +43,12 @@ def run(ck: Check, repo: Repo) -> None:
     if len(taken3) < 20:
         raise AnalysisError(f"C02.8: only {len(taken3)} obligations taken over from C03.2")
     ck.obs.extend(taken3)
+    ck.rule("C02.10", "a replayed mutation lands where the policy's did: optional numeric arguments of the mutation methods (layer index 0 included) are "
+                      "recognised as absent by `is None` only (obligations of C03.14, shared with the C03 check)")
+    taken14 = [replace(o, rule="C02.10") for o in sub3.obs if o.rule == "C03.14"]
+    if len(taken14) < 20:
+        raise AnalysisError(f"C02.10: only {len(taken14)} obligations taken over from C03.14")
+    ck.obs.extend(taken14)
     ck.rule("C02.9", "the reported mutation matches what was done: activation_mutation changes a network (in place) only on paths on which it reports 'act'")
     _report_matches_effect(ck, repo)
     ck.not_decided += ["identity of the optimizer's parameters with the live tensors at run time",
